@@ -75,8 +75,15 @@ ASSUMPTIONS = ["site weights are finite and positive, alpha > 0, residues are th
 RULE = ("protein alignments of 2-6 rows x 5-60 columns derived from a random parent (identical, 1-3 substitutions, 5 %, 20 %, 50 %, "
         "saturated) with gaps / X / * sprinkled or in runs; 7 models x {model, empirical} frequencies x gamma on/off (alpha in "
         "{1/2, 1, 2}) x gap-site removal x weights {none, ones, positive ratios}; every case also runs one random row permutation "
-        "and one random column permutation; non-trivial = some pair below the cap with at least one ambiguous site")
+        "and one random column permutation; non-trivial = some pair below the cap with at least one ambiguous site. "
+        "Command layer (binary built from the tree): `compute distance -m dayoff|jtt|mtrev|lg|wag|hivb|ab` with -r / --alpha / -a and the "
+        "flags that do not reach the protein code (--gap-mut, --rm-ambiguous, --range1/2) = the library call (fresh model object, "
+        "NewProtDistModel / InitModel(nil, nil) / MLDist on the alignment with the alphabet the parsers detect) to the 12 printed "
+        "decimals, FASTA and Phylip inputs holding 2-4 alignments (one model object in the command, a fresh one per alignment in "
+        "the expectation); alignments whose letters are all nucleotide codes and names ModelStringToInt does not know "
+        "(`dayhoff`, upper case) must fail alike; `build distboot -m <protein model> [-r] [--alpha]` = build seqboot + compute distance")
 TIMEOUT = 30.0
+NEEDS_BINARY = True      # the `det*` cases run the goalign binary built from the working tree
 
 AA = "ARNDCQEGHILKMFPSTWYV"
 ALPHAS = ["1/2", "1", "2"]
@@ -165,6 +172,76 @@ PROBES = [
 ]
 
 
+PROT_ONLY = "QEILFP"          # the amino-acid letters that are not nucleotide codes (align.DetectAlphabet)
+CLI_MODELS = ["dayoff", "jtt", "mtrev", "lg", "wag", "hivb", "ab"]
+
+
+def force_protein(rng, rows):
+    """every column gets a letter that only an amino-acid alignment can hold: the parsers of the command decide the alphabet
+    from the residues, and a bootstrap replicate must be read as amino acids whatever columns it drew"""
+    rows = [list(r) for r in rows]
+    for j in range(len(rows[0])):
+        if not any(r[j] in PROT_ONLY for r in rows):
+            rng.choice(rows)[j] = rng.choice(PROT_ONLY)
+    return ["".join(r) for r in rows]
+
+
+def gen_cli(rng, tier):
+    """command-line glue (ops `detdist`, `detdistmulti`, `detboot` of driver/common.py, run on the binary built from the tree):
+    `goalign compute distance -m <protein model>` prints the matrix the library call returns (fresh model object,
+    NewProtDistModel / InitModel(nil, nil) / MLDist) to 12 decimals, one matrix after the other on an input holding several
+    alignments; `build distboot -m <protein model>` prints what seqboot + compute distance print"""
+    quick = tier == "quick"
+    # one alignment (FASTA): every model x -r x --alpha; flags that do not reach the protein code; -a
+    grid = [(m, rg, al) for m in CLI_MODELS for rg in ("0", "1") for al in ("0", "1/2", "2")]
+    for k in range(len(grid) + (40 if quick else 600)):
+        model, rg, alpha = grid[k] if k < len(grid) else (rng.choice(CLI_MODELS), rng.choice("01"), rng.choice(["0", "0", "1/2", "1", "2"]))
+        rows = rand_alignment(rng)
+        u = rng.random()
+        tag = "cli-compute-distance"
+        if u < 0.75:
+            rows = force_protein(rng, rows)
+        elif u < 0.85:
+            # letters that are all nucleotide codes: the command reads a nucleotide alignment and MLDist refuses it
+            comp = rng.choice(["ARNDCGHKMSTWYV", "ACGT", "AG"])
+            rows = ["".join(rng.choice(comp) if ch in PROT_ONLY else ch for ch in r) for r in rows]
+            tag = "cli-compute-distance-nucleotide-letters"
+        gm, ra, r1, r2 = "0", "0", "_", "_"
+        v = rng.random()
+        if v < 0.1:
+            gm = rng.choice(["1", "2"])
+        elif v < 0.2:
+            ra = "1"
+        elif v < 0.3 and len(rows) >= 3:
+            r1, r2 = "0:0", "1:%d" % (len(rows) - 1)
+        if rng.random() < 0.04:
+            model = rng.choice(["dayhoff", "JTT", "LG"])      # not names ModelStringToInt knows: the command must fail
+            tag = "cli-compute-distance-unknown-name"
+        args = [rows_str(rows), model, rg, gm, ra, alpha, r1, r2]
+        if rng.random() < 0.2:
+            args.append("avg")
+            tag += "-average"
+        yield Case("detdist", args, True, tag)
+    # several alignments in one Phylip input: ONE model object serves them all in the command
+    for _ in range(25 if quick else 300):
+        groups = []
+        for _k in range(rng.randint(2, 4)):
+            rows = rand_alignment(rng)
+            groups.append(rows_str(force_protein(rng, rows) if rng.random() < 0.93 else rows))
+        yield Case("detdistmulti", [";;".join(groups), rng.choice(CLI_MODELS), rng.choice(["0", "1", "1"]), rng.choice(["0", "0", "1/2", "2"]),
+                                    rng.choice(["1", "2", "4"])], True, "cli-compute-distance-multi")
+    # build distboot = build seqboot + compute distance on every replicate
+    for k in range(10 if quick else 120):
+        rows = rand_alignment(rng)
+        while len(rows[0]) < 15 or len(rows) < 3:
+            rows = rand_alignment(rng)
+        rows = force_protein(rng, rows)
+        model = CLI_MODELS[k % len(CLI_MODELS)] + rng.choice(["", "", " -r"]) + rng.choice(["", "", " --alpha 0.5", " --alpha 2"])
+        fa = "".join(">s%d|%s|" % (i, r) for i, r in enumerate(rows))
+        yield Case("detboot", [fa, model, rng.randint(1, 4), rng.choice(["1/1", "1/1", "1/2", "3/4"]), rng.randint(0, 2 ** 31 - 1),
+                               rng.choice(["1", "2", "4"])], True, "cli-distboot")
+
+
 def gen(rng, tier):
     for name, args in PROBES:
         yield Case("c17", args, True, "probe-" + name)
@@ -198,6 +275,8 @@ def gen(rng, tier):
         c = mk(*o, rp, cp, rows, "reuse-%s" % ("model" if o[1] else "empirical"))
         c.args.append("reuse")
         yield c
+    for c in gen_cli(rng, tier):
+        yield c
 
 
 def parse_rows(s):
@@ -205,6 +284,8 @@ def parse_rows(s):
 
 
 def shrink(c):
+    if c.op != "c17":
+        return
     a = list(c.args)
     rows = parse_rows(a[8])
     n, L = len(rows), len(rows[0])
